@@ -172,6 +172,10 @@ type world struct {
 	hist    []int
 	shared  map[string]*pb.Path
 	broken  string // feed content the replica could not interpret
+	// refreshed: a metadata refresh ran since this incarnation of the target
+	// began. Part of the canonical state: an implementation may remember what
+	// it exported (a memo no query shows) and behave differently afterwards.
+	refreshed map[string]bool
 }
 
 var curWorld *world
@@ -425,7 +429,7 @@ func (w *world) Key() string {
 		sy, _ := md.GetBool(metadata.Sync)
 		co, _ := md.GetBool(metadata.Connected)
 		ce, cerr := md.GetStr(metadata.ConnectError)
-		fmt.Fprintf(&b, "[%s %s | sync=%v conn=%v cerr=%q/%v | latest=%d", t, strings.Join(o, ";"), sy, co, ce, cerr != nil, w.c.GetTarget(t).VerifLatest())
+		fmt.Fprintf(&b, "[%s %s | sync=%v conn=%v cerr=%q/%v | latest=%d refreshed=%v", t, strings.Join(o, ";"), sy, co, ce, cerr != nil, w.c.GetTarget(t).VerifLatest(), w.refreshed[t])
 		// metadata leaves: bool / string values only
 		w.c.Query(t, []string{metadata.Root}, func(p []string, _ *ctree.Leaf, v interface{}) error {
 			return nil
@@ -667,6 +671,14 @@ func (w *world) Apply(i int) []seqmc.Violation {
 		w.c.ConnectError(o.target, errors.New("dial failed"))
 	case "updmeta":
 		w.c.UpdateMetadata()
+		if w.refreshed == nil {
+			w.refreshed = map[string]bool{}
+		}
+		for _, t := range w.allTargets() {
+			if w.c.HasTarget(t) {
+				w.refreshed[t] = true
+			}
+		}
 	case "updsize":
 		w.c.UpdateSize()
 	case "reset":
@@ -678,6 +690,7 @@ func (w *world) Apply(i int) []seqmc.Violation {
 	case "remove":
 		w.c.Remove(o.target)
 		delete(w.m, o.target)
+		delete(w.refreshed, o.target) // a re-added target is a new incarnation
 	case "add":
 		if w.m[o.target] == nil { // only absent targets are added (a duplicate Add is outside the histories)
 			w.c.Add(o.target)
@@ -774,6 +787,23 @@ func (w *world) Apply(i int) []seqmc.Violation {
 			}
 			if ad := w.metaInt(t, metadata.AddCount) - w.metaInt(t, metadata.DelCount); ad != lc {
 				vs = append(vs, vio("leafcount-vs-add-del", "after %s: %s targetLeaves=%d, added-deleted=%d", o, t, lc, ad))
+			}
+		}
+		if o.kind == "updmeta" && w.on("count") {
+			// what a refresh exports is what the counters say: every integer
+			// counter leaf under meta/ exists and carries the in-memory value
+			for _, name := range []string{metadata.AddCount, metadata.DelCount, metadata.EmptyCount, metadata.LeafCount, metadata.UpdateCount, metadata.StaleCount, metadata.FutureCount, metadata.SuppressedCount} {
+				var leafVal int64
+				present := false
+				w.c.Query(t, metadata.Path(name), func(_ []string, _ *ctree.Leaf, val interface{}) error {
+					if n, ok := val.(*pb.Notification); ok && len(n.Update) == 1 {
+						leafVal, present = n.Update[0].Val.GetIntVal(), true
+					}
+					return nil
+				})
+				if want := w.metaInt(t, name); !present || leafVal != want {
+					vs = append(vs, vio("exported-counter-vs-counter", "after %s: %s exported leaf meta/%s = %d (present=%v), the counter is %d", o, t, name, leafVal, present, want))
+				}
 			}
 		}
 		if o.kind == "updmeta" && w.on("latestleaf") && m.latest > 0 {
